@@ -245,6 +245,7 @@ var zzDirs = []zzDirSpec{
 	{"skip", []string{"if"}, []string{"if"}, []string{"FIELD", "FRAGMENT_SPREAD", "INLINE_FRAGMENT"}},
 	{"include", []string{"if"}, []string{"if"}, []string{"FIELD", "FRAGMENT_SPREAD", "INLINE_FRAGMENT"}},
 	{"deprecated", []string{"reason"}, nil, []string{"FIELD_DEFINITION", "ENUM_VALUE"}},
+	{"onop", nil, nil, []string{"QUERY", "MUTATION", "SUBSCRIPTION", "FRAGMENT_DEFINITION"}},
 }
 
 func zzDirSpecOf(name string) *zzDirSpec {
@@ -737,7 +738,7 @@ type zzTy struct {
 	elemNN  bool
 }
 
-var zzInFields = map[string]zzTy{"a": {name: "Int"}, "b": {name: "String", nonNull: true}, "c": {name: "Int"}, "d": {name: "Color"}}
+var zzInFields = map[string]zzTy{"a": {name: "Int"}, "b": {name: "String", nonNull: true}, "c": {name: "Int"}, "d": {name: "Color"}, "n": {name: "In"}}
 
 // zzLiteralOK: is the literal acceptable for named type `name` (not a list)?
 func zzLiteralNamedOK(val ast.Value, name string) bool {
@@ -977,20 +978,24 @@ func (v *zzRefVal) variablesInAllowedPosition() bool {
 						for _, a := range x.Arguments {
 							for i := range fs.args {
 								if fs.args[i].name == a.Name.Value {
-									check(a.Value, zzArgTy(&fs.args[i]))
-									// variables nested in list / object literals
-									if lv, ok := a.Value.(*ast.ListValue); ok && fs.args[i].list {
-										for _, e := range lv.Values {
-											check(e, zzTy{name: fs.args[i].typ})
+									// the value and every variable nested in its list / object literals, at any depth
+									var deep func(val ast.Value, ty zzTy)
+									deep = func(val ast.Value, ty zzTy) {
+										check(val, ty)
+										if lv, ok := val.(*ast.ListValue); ok && ty.list {
+											for _, e := range lv.Values {
+												deep(e, zzTy{name: ty.name, nonNull: ty.elemNN})
+											}
 										}
-									}
-									if ov, ok := a.Value.(*ast.ObjectValue); ok && fs.args[i].typ == "In" {
-										for _, of := range ov.Fields {
-											if ft, known := zzInFields[of.Name.Value]; known {
-												check(of.Value, ft)
+										if ov, ok := val.(*ast.ObjectValue); ok && ty.name == "In" && !ty.list {
+											for _, of := range ov.Fields {
+												if ft, known := zzInFields[of.Name.Value]; known {
+													deep(of.Value, ft)
+												}
 											}
 										}
 									}
+									deep(a.Value, zzArgTy(&fs.args[i]))
 								}
 							}
 						}
